@@ -13,7 +13,8 @@ package originium
 //@ define sortedCT(cts) = forall(Int(i), Int(j), (0 <= i && i < j && j < len(cts)) ==> cts[i].ts < cts[j].ts)
 //
 //@ func (*originium.oracle).hasConflict -> r
-//@ props C07 C06
+//@ props C07 C06 C12
+//@ holds o.Mutex
 //@ requires txn != nil
 //@ ensures r == (len(txn.readsFp) > 0 && anyConflict(o.committedTxns, txn.readTs, txn.readsFp))
 //@ loop 0:
@@ -26,7 +27,8 @@ package originium
 // cleanUpCommittedTxns keeps exactly the committed transactions above the new clean-up mark, in
 // order, filtering in place (the slice model is faithful to the aliasing of temp and committedTxns).
 //@ func (*originium.oracle).cleanUpCommittedTxns
-//@ props C07 C06
+//@ props C07 C06 C12
+//@ holds o.Mutex
 //@ requires o.readMark != nil && WmLow[ref(o.readMark)] >= o.lastCleanUpTs
 //@ requires all(i, 0, len(o.committedTxns), o.committedTxns[i].ts > o.lastCleanUpTs)
 //@ assigns o.lastCleanUpTs, o.committedTxns, o.committedTxns[*], WmLow
@@ -318,6 +320,7 @@ package originium
 //@ props C10 C09
 //@ trusted reads a data block back from the table file: file system + s2 + block codec (C11 decides decode(encode(x)) = x); the ghost table model is what the file contains
 //@ requires 0 <= TBlkOfOff[fid(level, idx)][handle.Offset] && TBlkOfOff[fid(level, idx)][handle.Offset] < TNBlk[fid(level, idx)]
+//@ assigns nothing
 //@ ensures arrid(r.Entries) >= old(alloc) && offof(r.Entries) == 0
 //@ ensures (handle.Offset == 0 && handle.Length == TData[fid(level, idx)]) ==> (len(r.Entries) == TLen[fid(level, idx)] && all(i, 0, TLen[fid(level, idx)], r.Entries[i] == TEnt[fid(level, idx)][i]))
 //@ ensures !(handle.Offset == 0 && handle.Length == TData[fid(level, idx)]) ==> (len(r.Entries) == TBlk[fid(level, idx)][TBlkOfOff[fid(level, idx)][handle.Offset] + 1] - TBlk[fid(level, idx)][TBlkOfOff[fid(level, idx)][handle.Offset]])
@@ -456,3 +459,72 @@ package originium
 //@   invariant forall(Str(k), has(latest, k) ==> (0 <= LatSrc[k] && LatSrc[k] < len(entries) && latest[k] == entries[LatSrc[k]] && uk(entries[LatSrc[k]].Key) == k && keptBelow(entries, len(entries), low, LatSrc[k])), trig(dom(latest, k)))
 //@   invariant all(i, 0, len(entries), ts(entries[i].Key) <= low ==> has(latest, uk(entries[i].Key)))
 //@   invariant forall(Str(k), seen[k] ==> ex(j, 0, len(res), res[j] == latest[k]), trig(seen[k]))
+//
+// ---------------------------------------------------------------------------------------------
+// C12: concurrency classification of every field of the engine structs. govc -locks turns each
+// load/store of a classified field into an obligation (lock held in the right mode, or the object
+// is still private to the activation that allocated it).
+//@ shared originium.DB
+//@ shared originium.memtable
+//@ shared originium.levelManager
+//@ shared originium.oracle
+//@ field originium.DB.mu lock
+//@ field originium.DB.config immutable
+//@ field originium.DB.logger immutable
+//@ field originium.DB.dir immutable
+//@ field originium.DB.state atomic
+//@ field originium.DB.memtable guarded_by(mu)
+//@ field originium.DB.immutables guarded_by(mu)
+//@ field originium.DB.flushC immutable
+//@ field originium.DB.manager immutable
+//@ field originium.DB.oracle immutable
+//@ field originium.DB.closed immutable
+//@ field originium.DB.closeC immutable
+//@ field originium.memtable.mu lock
+//@ field originium.memtable.logger immutable
+//@ field originium.memtable.skiplist guarded_by(mu)
+//@ field originium.memtable.wal immutable
+//@ field originium.memtable.dir immutable
+//@ field originium.memtable.readOnly guarded_by(mu)
+//@ field originium.levelManager.mu lock
+//@ field originium.levelManager.dir immutable
+//@ field originium.levelManager.l0TargetNum immutable
+//@ field originium.levelManager.ratio immutable
+//@ field originium.levelManager.dataBlockSize immutable
+//@ field originium.levelManager.levels guarded_by(mu)
+//@ field originium.levelManager.logger immutable
+//@ field originium.levelManager.db immutable
+//@ field originium.oracle.Mutex lock
+//@ field originium.oracle.writeLock lock
+//@ field originium.oracle.nextTs guarded_by(Mutex)
+//@ field originium.oracle.lastCleanUpTs guarded_by(Mutex)
+//@ field originium.oracle.committedTxns guarded_by(Mutex)
+//@ field originium.oracle.readMark immutable
+//@ field originium.oracle.commitMark immutable
+//
+// functions that are documented as "call with lock"
+//@ func (*originium.levelManager).compactL0
+//@ props C12
+//@ trusted no functional contract yet (C09 compaction glue); only the lock clause below is used, and it is checked on the body by the C12 sweep
+//@ holds lm.mu
+//@ func (*originium.levelManager).compactLN
+//@ props C12
+//@ trusted no functional contract yet (C09 compaction glue); only the lock clause below is used, and it is checked on the body by the C12 sweep
+//@ holds lm.mu
+//@ func (*originium.levelManager).overlapL0
+//@ props C12
+//@ trusted no functional contract yet (C09 compaction glue); only the lock clause below is used, and it is checked on the body by the C12 sweep
+//@ holds lm.mu
+//@ func (*originium.levelManager).overlapLN
+//@ props C12
+//@ trusted no functional contract yet (C09 compaction glue); only the lock clause below is used, and it is checked on the body by the C12 sweep
+//@ holds lm.mu
+//@ func (*originium.levelManager).maxLevelIdx
+//@ props C12
+//@ trusted no functional contract yet (C09 compaction glue); only the lock clause below is used, and it is checked on the body by the C12 sweep
+//@ holds lm.mu
+//@ func originium.newOracle -> r
+//@ props C12 C02
+//@ trusted allocates the oracle and its two watermarks (each starts a consumer goroutine)
+//@ assigns nothing
+//@ ensures r != nil && ref(r) >= old(alloc) && r.readMark != nil && r.commitMark != nil && r.readMark != r.commitMark && r.nextTs == 0 && r.lastCleanUpTs == 0 && len(r.committedTxns) == 0
